@@ -73,12 +73,21 @@ class Recorder:
         def hnew(name, data=b"", **kw):
             return Proxy("hash", name.lower(), rec._hnew(name, data, **kw), None, data)
         hmac_mod.new = new
+        rec._hdigest = hmac_mod.digest
+        hmac_mod.digest = lambda key, msg, digest: new(key, msg, digest).digest()      # the one-shot form is the same leaf
+        rec._named = {}
+        for nm in ("sha1", "sha224", "sha256", "sha384", "sha512", "md5", "shake_128", "shake_256"):
+            rec._named[nm] = getattr(hashlib, nm)
+            setattr(hashlib, nm, (lambda data=b"", _nm=nm, **kw: hnew(_nm, data, **kw)))
         hashlib.new = hnew
         return self
 
     def __exit__(self, *a):
         hmac_mod.new = self._new
         hashlib.new = self._hnew
+        hmac_mod.digest = self._hdigest
+        for nm, f in self._named.items():
+            setattr(hashlib, nm, f)
 
     def table_lines(self):
         out = []
